@@ -49,7 +49,7 @@ SameSI(spec, v) == LET u == CompoundOf(v.u)
 Compare(spec, got) ==
   IF spec.k = "ood" THEN "ood"
   ELSE IF spec.k \in {"dz", "err"} THEN (IF got.k = "err" THEN "" ELSE IF spec.k = "dz" THEN "divzero-gave-value" ELSE "error-expected")
-  ELSE IF got.k = "err" THEN "unexpected-error"
+  ELSE IF got.k = "err" THEN (IF spec.v.opt THEN "" ELSE "unexpected-error")
   ELSE IF ~KnownKeys(got.u) THEN "unknown-unit"
   ELSE LET u == CompoundOf(got.u) IN
        IF ~NoZero(u) THEN "zero-power-in-unit"
@@ -62,7 +62,7 @@ Compare(spec, got) ==
 ArgsOk(a) == \A i \in 1..Len(a.args) : KnownKeys(a.args[i].u)
 SpecApp(a) ==
   IF ~ArgsOk(a) THEN Ood
-  ELSE IF \E i \in 1..Len(a.args) : HasOffset(CompoundOf(a.args[i].u)) THEN Ood
+  ELSE IF ~Temperature /\ \E i \in 1..Len(a.args) : HasOffset(CompoundOf(a.args[i].u)) THEN Ood
   ELSE IF a.op \in {"+", "-", "*", "/", "^"} THEN Apply(a.op, AsSpec(a.args[1]), AsSpec(a.args[2]))
   ELSE IF a.op = "to" THEN Cast(AsSpec(a.args[1]), CompoundOf(a.args[2].u))
   ELSE Builtin(a.op, TLCEval([i \in 1..Len(a.args) |-> AsSpec(a.args[i])]))
